@@ -706,6 +706,10 @@ class FortranBackend(BaseBackend):
                 overrides['JAC'] = 0
             elif provides_jac:
                 overrides['JAC'] = 1
+            else:
+                # no DFDU / DFDP blocks were emitted (auto_jac=False, DDE model): every constants file must say so, also
+                # the scenarios whose defaults assume the analytical Jacobian ('hom')
+                overrides['JAC'] = 0
 
         constants_files: Dict[str, str] = {}
         for scen in scenarios:
